@@ -477,6 +477,7 @@ class FnTranslator:
         self.fn = fn
         self.known = known          # name -> signature of already translated functions (callees)
         self.scopes = [{}]
+        self.le = {}                # usize variable -> names of the variables it is known to be <= (from `x = y % z`)
         self.ntmp = 0
         self.has_loop = False
         self.calls = []
@@ -539,6 +540,13 @@ class FnTranslator:
             if op in ("+", "-", "*", "/", "%"):
                 if k1 != "nat" or k2 != "nat":
                     bad(e[-1], "`%s` on non-usize operands is not understood" % op)
+                if op == "-":
+                    # usize subtraction panics (debug) or wraps (release) on underflow; `nat` subtraction truncates.  The two
+                    # agree only when the subtrahend is <= the minuend, which must be evident: `x - y` with y (transitively)
+                    # defined as `x % ..`.  Anything else is rejected, never rendered as a truncated subtraction.
+                    if not (e[2][0] == "var" and e[3][0] == "var" and e[2][1] in self.le.get(e[3][1], ())):
+                        bad(e[-1], "possible usize underflow in `%s - %s`: the subtrahend is not evidently <= the minuend "
+                                   "(only `x - y` with `y = x % ..` is understood)" % (l, r))
                 return [], "(%s %s %s)" % (l, {"%": "mod"}.get(op, op), r), "nat"
             if op == "<":
                 if k1 != "nat" or k2 != "nat":
@@ -688,6 +696,15 @@ class FnTranslator:
         binds, term, kind = self.expr(e)
         if kind not in ("val", "nat"):
             bad(e[-1], "binding a %s expression to a variable is not understood" % kind)
+        # order facts: `name = u % ..`  gives  name <= u  and  name <= everything u is <= (a re-binding of `name`
+        # invalidates what was known about, and through, the old `name`)
+        ub = set()
+        if kind == "nat" and e[0] == "binop" and e[1] == "%" and e[2][0] == "var":
+            u = e[2][1]
+            ub = set(self.le.get(u, ())) | ({u} if u != name else set())
+        for v in list(self.le):
+            self.le[v].discard(name)
+        self.le[name] = ub - {name}
         if not declare:
             old = self.lookup(name)
             if old is None or old[0] != kind:
